@@ -25,9 +25,36 @@ pub assume_specification<I: Iterator>[ <Peekable<I> as Iterator>::next ](p: &mut
 #[verifier::external_body]
 pub fn std_peekable<I: Iterator>(it: I) -> (r: Peekable<I>) { it.peekable() }
 
+pub assume_specification<I: Iterator>[ Peekable::<I>::peek ](p: &mut Peekable<I>) -> (r: Option<&I::Item>)
+    ensures
+        rem(*final(p)) == rem(*old(p)),
+        rem(*old(p)).len() == 0 ==> r is None,
+        rem(*old(p)).len() > 0 ==> r == Some(&rem(*old(p))[0]);
+
+#[verifier::external_trait_specification]
+pub trait ExFromStr: Sized {
+    type ExternalTraitSpecificationFor: core::str::FromStr;
+    type Err;
+    fn from_str(s: &str) -> core::result::Result<Self, Self::Err>;
+}
+#[verifier::external_type_specification]
+#[verifier::external_body]
+pub struct ExParseIntError(core::num::ParseIntError);
+/// str::parse: may fail -- nothing is assumed about its result
+pub assume_specification<F: core::str::FromStr>[ str::parse::<F> ](s: &str) -> (r: core::result::Result<F, F::Err>);
+
 // ---- opaque (X2) ----
-#[verifier::external_body] pub struct TokenData { _p: () }
 #[verifier::external_body] pub struct SchemeError { _p: () }
+/// located_error!(SyntaxError::..., location): the message arguments are dropped (X6), an Err is built
+#[verifier::external_body]
+pub fn syntax_error<T>(location: Option<[u32; 2]>) -> (r: Result<T>) ensures r is Err { unimplemented!() }
+
+/// the u32 line / column counters cannot overflow while the remaining input is consumed
+pub open spec fn wf_lexer<CharIter: Iterator<Item = char>>(l: Lexer<CharIter>) -> bool {
+    &&& l.location[1] >= 1
+    &&& l.location[0] + rem(l.peekable_char_stream).len() <= u32::MAX
+    &&& l.location[1] + rem(l.peekable_char_stream).len() <= u32::MAX
+}
 pub type Token = Located<TokenData>;
 type Result<T> = core::result::Result<T, SchemeError>;
 impl ToLocated for TokenData {}
@@ -66,6 +93,7 @@ pub proof fn lemma_pos_monotone(start: (int, int), s: Seq<char>, k: int)
         assert(s.take(k) =~= s);
     }
 }
+pub open spec fn is_digit(c: char) -> bool { '0' <= c && c <= '9' }
 pub open spec fn min_int(a: int, b: int) -> int { if a <= b { a } else { b } }
 '''
 
@@ -77,7 +105,10 @@ UNIT = {
         "ExPeekable": "std::iter::Peekable as an opaque type",
         "next": "ASSUMED std contract: Peekable::next yields the head of the remaining input and drops it",
         "std_peekable": "X3s: `char_stream.peekable()` called through an opaque wrapper (no contract needed)",
-        "TokenData": "opaque type (X2)", "SchemeError": "opaque type (X2)",
+        "SchemeError": "opaque type (X2)",
+        "peek": "ASSUMED std contract: Peekable::peek shows the head of the remaining input without consuming it",
+        "parse": "std str::parse: nothing assumed (may fail)", "ExParseIntError": "std error type (opaque)",
+        "syntax_error": "X6: located_error!(SyntaxError::.., loc) builds an Err",
         "try_next": "ASSUMED CONTRACT: none beyond type (the scanners are not under contract)",
     },
     "prelude": PRELUDE,
@@ -87,6 +118,8 @@ UNIT = {
          "methods": {"locate": {"props": ["C15"],
              "sig_rewrites": [("S1", r"-> Located<Self>(?=\s+where)", "-> (r: Located<Self>)")],
              "contract": "        ensures r.data == self, r.location == location,"}}},
+        {"kind": "enum", "file": "src/parser/datum.rs", "name": "Primitive"},
+        {"kind": "enum", "file": L, "name": "TokenData"},
         {"kind": "struct", "file": L, "name": "Lexer", "attrs": "#[verifier::reject_recursive_types(CharIter)]"},
         {"kind": "impl", "file": L, "impl": r"^impl<CharIter: Iterator<Item = char>> Lexer<CharIter>$",
          "methods": {
@@ -108,6 +141,7 @@ UNIT = {
             &&& (final(self).location[0] as int, final(self).location[1] as int)
                     == pos_after((old(self).location[0] as int, old(self).location[1] as int), text.take(n))
             // the returned reference points at `current`, which holds the last character consumed (None past the end)
+            &&& wf_lexer(*final(self))
             &&& count == 0 ==> *r == old(self).current
             &&& count > 0 ==> *r == (if count <= text.len() { Some(text[count - 1]) } else { None::<char> })
         }),""",
@@ -117,6 +151,7 @@ UNIT = {
                 let k = it.index() as int;
                 let n = min_int(k, text.len() as int);
                 &&& it.seq().len() == count
+                &&& wf_lexer(*self)
                 &&& old(self).location[1] >= 1
                 &&& old(self).location[0] + text.len() <= u32::MAX
                 &&& old(self).location[1] + text.len() <= u32::MAX
@@ -138,6 +173,42 @@ UNIT = {
                 }
             }"""}},
                  },
+
+             "parse_number": {"props": ["C07"], "optional": True,
+                 "rewrites": [("X6", r"located_error!\(\s*SyntaxError::\w+(\([^;]*?\))?,\s*(Some\(self\.location\)|location|Some\(location\))\s*\)", r"syntax_error(\2)", 0, "S")],
+                 "contract": ""},
+             "test_delimiter": {"props": ["C07"],
+                 "rewrites": [("X6", r"located_error!\(\s*SyntaxError::\w+(\([^;]*?\))?,\s*(Some\(self\.location\)|location|Some\(location\))\s*\)", r"syntax_error(\2)", 0, "S")],
+                 "contract": ""},
+             "digital10": {"props": ["C07"],
+                 "attrs": "#[verifier::loop_isolation(false)]",
+                 "rewrites": [("X5", r"\bbreak (Ok\()", r"return \1", 0)],
+                 "contract": """        requires wf_lexer(*old(self)),
+        ensures wf_lexer(*final(self)), rem(final(self).peekable_char_stream).len() <= rem(old(self).peekable_char_stream).len(),
+            // a run of digits that starts with a digit consumes at least that digit (progress of `number`'s loop)
+            rem(old(self).peekable_char_stream).len() > 0 && is_digit(rem(old(self).peekable_char_stream)[0])
+                ==> rem(final(self).peekable_char_stream).len() < rem(old(self).peekable_char_stream).len(),""",
+                 "loops": {1: {"expect_kw": "loop", "invariant": """            invariant wf_lexer(*self),
+                rem(self.peekable_char_stream).len() < rem(old(self).peekable_char_stream).len()
+                    || rem(self.peekable_char_stream) == rem(old(self).peekable_char_stream),
+            decreases rem(self.peekable_char_stream).len(),"""}}},
+             "number_suffix": {"props": ["C07"],
+                 "contract": """        requires wf_lexer(*old(self)),
+        ensures wf_lexer(*final(self)), rem(final(self).peekable_char_stream).len() <= rem(old(self).peekable_char_stream).len(),"""},
+             "real": {"props": ["C07"],
+                 "rewrites": [("X6", r"located_error!\(\s*SyntaxError::\w+(\([^;]*?\))?,\s*(Some\(self\.location\)|location|Some\(location\))\s*\)", r"syntax_error(\2)", 0, "S")],
+                 "contract": """        requires wf_lexer(*old(self)),
+        ensures wf_lexer(*final(self)), rem(final(self).peekable_char_stream).len() <= rem(old(self).peekable_char_stream).len(),"""},
+             "number": {"props": ["C07", "C09"],
+                 "sig_rewrites": [("S1", r"-> Result<Option<TokenData>>$", "-> (r: Result<Option<TokenData>>)")],
+                 "attrs": "#[verifier::loop_isolation(false)]",
+                 "rewrites": [("X6", r"located_error!\(\s*SyntaxError::\w+(\([^;]*?\))?,\s*(Some\(self\.location\)|location|Some\(location\))\s*\)", r"syntax_error(\2)", 0, "S"), ("X5", r"\bbreak (Ok\()", r"return \1", 0)],
+                 "contract": """        requires wf_lexer(*old(self)),
+        ensures wf_lexer(*final(self)), rem(final(self).peekable_char_stream).len() <= rem(old(self).peekable_char_stream).len(),
+            // a ratio literal never has denominator 0 (relied upon by eval_primitive)
+            r matches Ok(Some(TokenData::Primitive(Primitive::Rational(_, d)))) ==> d != 0,""",
+                 "loops": {1: {"expect_kw": "loop", "invariant": """            invariant wf_lexer(*self), rem(self.peekable_char_stream).len() <= rem(old(self).peekable_char_stream).len(),
+            decreases rem(self.peekable_char_stream).len(),"""}}},
              "try_next": {"drop_body": True, "contract": ""},
          }},
         {"kind": "impl", "file": L, "impl": r"^impl<CharIter: Iterator<Item = char>> Iterator for Lexer<CharIter>$",
